@@ -856,7 +856,7 @@ struct FipsGateSim : Sim {
                 // initial state by fault injection
                 p.cfg["fault"] = (int64_t) (run_index % FK_N);
                 p.cfg["sha_fail_value"] = g.chance(1, 2) ? 1 : -1; // the real SHA tests report failure as -1, the header documents 1
-                p.cfg["kat_target"] = (int64_t) g.below(6);
+                p.cfg["kat_target"] = (int64_t) g.below(8);
                 p.cfg["kat_transient"] = (int64_t) g.below(2);
                 int ne = (int) entries.size();
                 int ncalls = 6 + (int) g.below(thorough ? 30 : 14);
@@ -964,8 +964,8 @@ struct FipsGateSim : Sim {
 };
 
 // ---- KAT corruption stubs: same signatures as the kernels, flip one output bit while armed and inside the self-test window
-static void *kat_real[8];
-static void **kat_slot[8];
+static void *kat_real[10];
+static void **kat_slot[10];
 extern "C" {
 static int kat_cbc_enc128(void *in, uint8_t *iv, uint8_t *keys, void *out, uint64_t len)
 {
@@ -1006,6 +1006,21 @@ static void kat_gcm_enc128(const void *kd, void *ctx, uint8_t *out, const uint8_
                         FipsGateSim::kat_armed = false;
         }
 }
+// short write: the streaming decrypt finalize delivers a correct but truncated tag (12 of the 16 bytes asked for)
+static void kat_gcm_dec_fin_short(int which, const void *kd, void *ctx, uint8_t *tag, uint64_t tagl)
+{
+        if (FipsGateSim::kat_armed && g_st.in_window && tagl > 12) {
+                uint8_t full[16];
+                ((void (*)(const void *, void *, uint8_t *, uint64_t)) kat_real[which])(kd, ctx, full, 16);
+                memcpy(tag, full, 12);
+                if (FipsGateSim::kat_transient)
+                        FipsGateSim::kat_armed = false;
+                return;
+        }
+        ((void (*)(const void *, void *, uint8_t *, uint64_t)) kat_real[which])(kd, ctx, tag, tagl);
+}
+static void kat_gcm_dec128_fin(const void *kd, void *ctx, uint8_t *tag, uint64_t tagl) { kat_gcm_dec_fin_short(8, kd, ctx, tag, tagl); }
+static void kat_gcm_dec256_fin(const void *kd, void *ctx, uint8_t *tag, uint64_t tagl) { kat_gcm_dec_fin_short(9, kd, ctx, tag, tagl); }
 static void *kat_sha512_flush(void *mgr)
 {
         void *c = ((void *(*) (void *) ) kat_real[4])(mgr);
@@ -1053,9 +1068,9 @@ static void kat_bind()
         if (kat_bound)
                 return;
         kat_bound = true;
-        static const char *names[8] = { "_aes_cbc_enc_128", "_aes_cbc_dec_256", "_XTS_AES_256_dec", "_aes_gcm_enc_128", "_sha512_ctx_mgr_flush", "_sha512_ctx_mgr_submit",
-                                        "_sha1_ctx_mgr_flush", "_sha1_ctx_mgr_submit" };
-        for (int i = 0; i < 8; i++) {
+        static const char *names[10] = { "_aes_cbc_enc_128",       "_aes_cbc_dec_256",    "_XTS_AES_256_dec",     "_aes_gcm_enc_128",          "_sha512_ctx_mgr_flush",
+                                         "_sha512_ctx_mgr_submit", "_sha1_ctx_mgr_flush", "_sha1_ctx_mgr_submit", "_aes_gcm_dec_128_finalize", "_aes_gcm_dec_256_finalize" };
+        for (int i = 0; i < 10; i++) {
                 kat_slot[i] = (void **) libsym((std::string(names[i]) + "_dispatched").c_str());
                 void (*di)(void) = (void (*)(void)) libsym((std::string(names[i]) + "_dispatch_init").c_str());
                 di();
@@ -1064,13 +1079,13 @@ static void kat_bind()
 }
 static void kat_arm(int target, bool on, bool both)
 {
-        static void *stubs[8] = { (void *) kat_cbc_enc128, (void *) kat_cbc_dec256, (void *) kat_xts256_dec, (void *) kat_gcm_enc128, (void *) kat_sha512_flush,
-                                  (void *) kat_sha512_submit, (void *) kat_sha1_flush, (void *) kat_sha1_submit };
-        // targets 0-3: one AES kernel; 4: SHA-512 (submit+flush); 5: SHA-1 (submit+flush)
-        for (int i = 0; i < 8; i++) {
-                bool sel = i < 4 ? (i == target) : target == 4 ? (i == 4 || i == 5) : target == 5 ? (i == 6 || i == 7) : false;
+        static void *stubs[10] = { (void *) kat_cbc_enc128,    (void *) kat_cbc_dec256, (void *) kat_xts256_dec, (void *) kat_gcm_enc128,     (void *) kat_sha512_flush,
+                                   (void *) kat_sha512_submit, (void *) kat_sha1_flush, (void *) kat_sha1_submit, (void *) kat_gcm_dec128_fin, (void *) kat_gcm_dec256_fin };
+        // targets 0-3: one AES kernel; 4: SHA-512 (submit+flush); 5: SHA-1 (submit+flush); 6, 7: short tag write in the GCM-128 / GCM-256 streaming decrypt finalize
+        for (int i = 0; i < 10; i++) {
+                bool sel = i < 4 ? (i == target) : i >= 8 ? (i == target + 2) : target == 4 ? (i == 4 || i == 5) : target == 5 ? (i == 6 || i == 7) : false;
                 if (both) // one AES kernel (target mod 4) and one SHA algorithm (target parity) at once
-                        sel = i < 4 ? (i == target % 4) : (target & 1) ? (i == 4 || i == 5) : (i == 6 || i == 7);
+                        sel = i < 4 ? (i == target % 4) : i >= 8 ? false : (target & 1) ? (i == 4 || i == 5) : (i == 6 || i == 7);
                 *kat_slot[i] = ((on || both) && sel) ? stubs[i] : kat_real[i];
         }
 }
@@ -1081,13 +1096,15 @@ void FipsGateSim::execute(const Plan &p, Env &e, RunResult &r)
                 return;
         e.call_cpu_limit_s = 30; // a gated call that never returns (self-tests stuck) is reported, not waited for
         kat_bind();
-        kat_target = (int) (p.get("kat_target") % 6);
+        kat_target = (int) (p.get("kat_target") % 8);
         sha_fail_value = p.get("sha_fail_value", 1) < 0 ? -1 : 1;
         kat_transient = p.get("kat_transient") != 0;
         if (kat_transient)
                 r.cov.hit("fault_kat_corruption_transient");
         int fk = (int) (p.get("fault") % FK_N);
         apply_fault(fk, e, r);
+        if (fk == FK_KAT_CORRUPT && kat_target >= 6)
+                r.cov.hit("fault_kat_short_tag_write_in_gcm_dec_finalize");
         if (fk == FK_KAT_BOTH)
                 kat_transient = false;
         kat_arm(kat_target, fk == FK_KAT_CORRUPT, fk == FK_KAT_BOTH);
